@@ -1,37 +1,123 @@
-"""Snapshot / restore of the package's module-level registries (used by every stateful explorer).
+"""Snapshot / restore of the package's module-level mutable state (used by every stateful explorer).
 
-The live singledispatch registry is reached through the closure cells of
-``pretty_dispatch.register`` - read-only knowledge of functools, no hook in the package."""
+Nothing here relies on the *names* of the package's internals: the snapshot covers every
+module-level dict / list / set / WeakKeyDictionary found in the package's modules and the registry
+and cache of every functools.singledispatch function bound there (reached through the closure
+cells of its ``register`` attribute - read-only knowledge of functools, no hook in the package).
+A refactoring that renames or restructures those globals is still snapshotted; the few places that
+*read* specific registries (to build a canonical state) go through the accessors below, which
+degrade to "unknown" instead of failing.
+"""
 import importlib
+import os
+import sys
+import weakref
+
+
+def _pkgdir():
+    import prettyprinter
+    return os.path.dirname(os.path.abspath(prettyprinter.__file__))
 
 
 class Registries:
     def __init__(self):
         self.pp = importlib.import_module('prettyprinter.prettyprinter')
-        reg = self.pp.pretty_dispatch.register
-        cells = dict(zip(reg.__code__.co_freevars, reg.__closure__))
-        self.registry = cells['registry'].cell_contents
-        self.dispatch_cache = cells['dispatch_cache'].cell_contents
-        assert self.registry is not None and self.pp.pretty_dispatch.registry[object] is self.registry[object]
+        self.pkgdir = _pkgdir()
+        self.dispatchers = []       # (function, registry dict, dispatch cache)
         self.snap()
 
+    # ------------------------------------------------------------------ discovery
+    def modules(self):
+        for name, mod in list(sys.modules.items()):
+            f = getattr(mod, '__file__', None)
+            if f and os.path.abspath(f).startswith(self.pkgdir):
+                yield mod
+
+    def _find_dispatchers(self):
+        out, seen = [], set()
+        for mod in self.modules():
+            for name, val in list(vars(mod).items()):
+                reg = getattr(val, 'register', None)
+                if callable(val) and reg is not None and hasattr(val, 'dispatch') and getattr(reg, '__closure__', None):
+                    if id(val) in seen:
+                        continue
+                    cells = dict(zip(reg.__code__.co_freevars, reg.__closure__))
+                    try:
+                        registry = cells['registry'].cell_contents
+                        cache = cells['dispatch_cache'].cell_contents
+                    except (KeyError, ValueError):
+                        continue
+                    seen.add(id(val))
+                    out.append((val, registry, cache))
+        return out
+
+    # ------------------------------------------------------------------ snapshot / restore
     def snap(self):
-        pp = self.pp
+        self.dispatchers = self._find_dispatchers()
+        self.base_dispatch = [(f, reg, dict(reg)) for (f, reg, cache) in self.dispatchers]
+        self.base_containers = []      # (module, name, object, shallow copy)
+        for mod in self.modules():
+            for name, val in list(vars(mod).items()):
+                if name.startswith('__'):
+                    continue
+                if isinstance(val, (dict, list, set)) or isinstance(val, weakref.WeakKeyDictionary):
+                    try:
+                        copy = dict(val) if isinstance(val, (dict, weakref.WeakKeyDictionary)) else type(val)(val)
+                    except Exception:     # noqa
+                        continue
+                    self.base_containers.append((mod, name, val, copy))
+        # named views used by the explorers' canonical states (None when the package has no such global)
+        self.registry = self.dispatchers and self._main_registry() or {}
         self.base_registry = dict(self.registry)
-        self.base_deferred = dict(pp._DEFERRED_DISPATCH_BY_NAME)
-        self.base_pred = list(pp._PREDICATE_REGISTRY)
-        self.base_cnt = dict(pp._cnamedtuple_fieldnames_by_class)
+        self.base_deferred = dict(self.deferred())
+        self.base_pred = list(self.predicates())
+
+    def _main_registry(self):
+        f = getattr(self.pp, 'pretty_dispatch', None)
+        for (fn, reg, cache) in self.dispatchers:
+            if fn is f:
+                return reg
+        return self.dispatchers[0][1]
 
     def restore(self):
-        pp = self.pp
-        self.registry.clear()
-        self.registry.update(self.base_registry)
-        pp._DEFERRED_DISPATCH_BY_NAME.clear()
-        pp._DEFERRED_DISPATCH_BY_NAME.update(self.base_deferred)
-        pp._PREDICATE_REGISTRY[:] = self.base_pred
-        pp._cnamedtuple_fieldnames_by_class.clear()
-        pp._cnamedtuple_fieldnames_by_class.update(self.base_cnt)
-        pp.pretty_dispatch._clear_cache()
+        for (fn, reg, base) in self.base_dispatch:
+            reg.clear()
+            reg.update(base)
+            try:
+                fn._clear_cache()
+            except Exception:     # noqa
+                pass
+        for (mod, name, obj, copy) in self.base_containers:
+            try:
+                if isinstance(obj, list):
+                    obj[:] = copy
+                else:
+                    obj.clear()
+                    obj.update(copy)
+            except Exception:     # noqa
+                pass
+            if getattr(mod, name, None) is not obj:
+                # the global was rebound (e.g. a defaults dict replaced wholesale): bind the original again
+                try:
+                    setattr(mod, name, obj)
+                except Exception:     # noqa
+                    pass
+
+    # ------------------------------------------------------------------ accessors that degrade gracefully
+    def deferred(self):
+        d = getattr(self.pp, '_DEFERRED_DISPATCH_BY_NAME', None)
+        return d if isinstance(d, dict) else {}
+
+    def predicates(self):
+        p = getattr(self.pp, '_PREDICATE_REGISTRY', None)
+        return p if isinstance(p, list) else []
+
+    def structseq_cache_names(self):
+        c = getattr(self.pp, '_cnamedtuple_fieldnames_by_class', None)
+        try:
+            return sorted(k.__module__ + '.' + k.__qualname__ for k in c.keys())
+        except Exception:     # noqa
+            return None
 
 
 _R = []
